@@ -25,6 +25,8 @@ def key_set(rng, dtype):
             pool.add(int(k))
     keys = list(pool)
     rng.shuffle(keys)
+    if rng.random() < 0.3:
+        keys.sort()             # keys handed over in ascending order (often already in bucket order)
     return keys
 
 
